@@ -346,6 +346,18 @@ var skFormatRe = regexp.MustCompile(`^_SK_%s(_%s)*$`)
 
 // sprintfParts: if v is fmt.Sprintf(constFormat, args...) returns format and the vararg values.
 func sprintfParts(v ssa.Value) (string, []ssa.Value, bool) {
+	f, parts, ok := sprintfPartsStrict(v)
+	if ok {
+		return f, parts, true
+	}
+	// the same string put together with `+`, strings.Join or a helper of the package
+	if f2, p2, ok2 := stringTemplate(v, nil, 0); ok2 && strings.Contains(f2, "%s") && f2 != "%s" {
+		return f2, p2, true
+	}
+	return "", nil, false
+}
+
+func sprintfPartsStrict(v ssa.Value) (string, []ssa.Value, bool) {
 	cv, ok := resolve(v).(*ssa.Call)
 	if !ok {
 		return "", nil, false
